@@ -98,7 +98,7 @@ func (h *hctx) refuse(n ast.Node, format string, a ...interface{}) {
 var hIgnoredPrefixes = []string{"log.", "span.", "otel.", "m.spansIndex.", "monitoredChan.", "m.channelMonitor.", "m.transportOptions.SetOptions",
 	"transportConfigurer", "m.transportConfigurers.", "context.", "cancel", "trace.", "attribute."}
 
-func calleeString(c *ast.CallExpr) string { return exprString(c.Fun) }
+func calleeString(c *ast.CallExpr) string { return strings.Replace(exprString(c.Fun), "r.manager.", "m.", 1) }
 
 func isIgnoredCall(c *ast.CallExpr) bool {
 	s := calleeString(c)
@@ -189,7 +189,7 @@ func (h *hctx) expr(e ast.Expr, env henv) hv {
 			return hv{coq: "negb (" + a.coq + ")", kind: "bool"}
 		}
 	case *ast.SelectorExpr:
-		s := exprString(e)
+		s := strings.Replace(exprString(e), "r.manager.", "m.", 1)
 		switch s {
 		case "m.peerID":
 			return env["#self"]
@@ -199,8 +199,10 @@ func (h *hctx) expr(e ast.Expr, env henv) hv {
 			return retK("RPause")
 		case "datatransfer.ErrChannelNotFound":
 			return retK("RNotFound")
-		case "datatransfer.ErrUnsupported", "datatransfer.ErrResume":
+		case "datatransfer.ErrUnsupported":
 			return retK("ROther")
+		case "datatransfer.ErrResume":
+			return retK("RResume") // no class of the model: no translated program returns it
 		}
 		if id, ok := x.X.(*ast.Ident); ok && id.Name == "datatransfer" {
 			return hv{coq: x.Sel.Name, kind: "status"} // a status constant; ill-kinded uses fail in Coq
@@ -250,7 +252,20 @@ func (h *hctx) expr(e ast.Expr, env henv) hv {
 	case *ast.BinaryExpr:
 		switch x.Op {
 		case token.LAND, token.LOR:
-			a, b := h.expr(x.X, env), h.expr(x.Y, env)
+			a := h.expr(x.X, env)
+			if a.kind == "bool" && a.static != nil {
+				if *a.static == (x.Op == token.LOR) {
+					return boolK(*a.static) // short circuit: the right operand is not evaluated
+				}
+				return h.expr(x.Y, env)
+			}
+			b := h.expr(x.Y, env)
+			if b.kind == "bool" && b.static != nil && a.kind == "bool" {
+				if *b.static == (x.Op == token.LOR) {
+					return boolK(*b.static)
+				}
+				return a
+			}
 			if a.kind != "bool" || b.kind != "bool" {
 				h.refuse(e, "&& / || applied to a non-boolean")
 			}
@@ -296,10 +311,15 @@ func (h *hctx) expr(e ast.Expr, env henv) hv {
 						return hv{coq: "is_some_msg " + paren(a.coq), kind: "bool"}
 					}
 					return hv{coq: "negb (is_some_msg " + paren(a.coq) + ")", kind: "bool"}
+				case "chan":
+					return boolK(neg)
 				case "opaque":
 					return hv{coq: "?", kind: "opaquebool"}
 				}
 				h.refuse(e, "comparison of a %s with nil", a.kind)
+			}
+			if a.kind == "ret" && b.kind == "ret" && b.konst == "RResume" {
+				return boolK(neg)
 			}
 			if a.kind == "ret" && b.kind == "ret" && b.konst != "" { // err == datatransfer.ErrPause
 				return wrap(fmt.Sprintf("nret_is %s %s", b.konst, paren(a.coq)))
@@ -357,6 +377,23 @@ func (h *hctx) expr(e ast.Expr, env henv) hv {
 				h.refuse(e, "TypedVoucher literal must set Type and Voucher")
 			}
 			return hv{coq: fmt.Sprintf("{| v_type := %s; v_node := %s |}", ty, nd), kind: "voucher"}
+		case "datatransfer.ChannelID":
+			f := map[string]string{}
+			for _, el := range x.Elts {
+				kv, ok := el.(*ast.KeyValueExpr)
+				if !ok {
+					h.refuse(e, "ChannelID literal without field names")
+				}
+				v := h.expr(kv.Value, env)
+				if v.kind != "N" {
+					h.refuse(kv.Value, "field of a ChannelID literal is a %s", v.kind)
+				}
+				f[exprString(kv.Key)] = v.coq
+			}
+			if f["Initiator"] == "" || f["Responder"] == "" || f["ID"] == "" {
+				h.refuse(e, "ChannelID literal must set Initiator, Responder and ID")
+			}
+			return hv{coq: fmt.Sprintf("(%s, %s, %s)", f["Initiator"], f["Responder"], f["ID"]), kind: "chid"}
 		case "datatransfer.ValidationResult":
 			if len(x.Elts) == 0 {
 				return hv{coq: "zero_valres", kind: "valres"}
@@ -523,6 +560,8 @@ var hProgSiblings = map[string]progSibling{
 	"m.restartRequest":                {"gen_restartRequest", []string{"#self", "chid", "msg"}, []int{0, 0, 1}, "bool,valres,ret"},
 	"m.receiveRestartRequest":         {"gen_receiveRestartRequest", []string{"#self", "chid", "msg"}, []int{0, 0, 1}, "omsg,ret"},
 	"m.receiveNewRequest":             {"gen_receiveNewRequest", []string{"#self", "chid", "msg"}, []int{0, 0, 1}, "omsg,ret"},
+	"m.OnRequestReceived":             {"gen_OnRequestReceived", []string{"#self", "chid", "msg"}, []int{0, 0, 1}, "omsg,ret"},
+	"m.OnResponseReceived":            {"gen_OnResponseReceived", []string{"#self", "chid", "msg"}, []int{0, 0, 1}, "ret"},
 	"m.processUpdateVoucher":          {"gen_processUpdateVoucher", []string{"chid", "msg"}, []int{0, 1}, "omsg,ret"},
 	"m.receiveUpdateRequest":          {"gen_receiveUpdateRequest", []string{"#self", "chid", "msg"}, []int{0, 0, 1}, "omsg,ret"},
 }
@@ -614,6 +653,12 @@ func (h *hctx) effect(c *ast.CallExpr, env henv) (heffect, bool) {
 		return heffect{prog: fmt.Sprintf("exec (ITransport (TClose %s))", h.chidArg(c.Args[1], env)), binder: ok, results: []hv{retOk(ok, "ROther")}}, true
 	case "m.transport.CleanupChannel":
 		return heffect{prog: fmt.Sprintf("exec (ITransport (TCleanup %s))", h.chidArg(c.Args[0], env)), binder: "_"}, true
+	case "m.transport.(datatransfer.PauseableTransport).PauseChannel":
+		ok := h.gensym("ok")
+		return heffect{prog: fmt.Sprintf("exec (ITransport (TPause %s))", h.chidArg(c.Args[1], env)), binder: ok, results: []hv{retOk(ok, "ROther")}}, true
+	case "m.transport.(datatransfer.PauseableTransport).ResumeChannel":
+		ok := h.gensym("ok")
+		return heffect{prog: fmt.Sprintf("exec (ITransport (TResume %s %s))", h.chidArg(c.Args[2], env), arg(1, "msg")), binder: ok, results: []hv{retOk(ok, "ROther")}}, true
 	case "pausable.PauseChannel":
 		ok := h.gensym("ok")
 		return heffect{prog: fmt.Sprintf("exec (ITransport (TPause %s))", h.chidArg(c.Args[1], env)), binder: ok, results: []hv{retOk(ok, "ROther")}}, true
@@ -958,6 +1003,11 @@ func (h *hctx) seq(list []ast.Stmt, env henv, tail tailFn) string {
 						case "Selector":
 							field = "g_selector"
 							val = hv{coq: "g_selector " + m, kind: "node"}
+						case "RestartChannelId":
+							e2 := env.copy()
+							e2[lhsName(s.Lhs[0])] = hv{coq: "g_restart " + m, kind: "chid"}
+							e2[lhsName(s.Lhs[1])] = retOk("is_restart_existing "+m, "ROther")
+							return rest(e2)
 						case "TypedVoucher":
 							val = hv{coq: fmt.Sprintf("{| v_type := g_vtype %s; v_node := g_vnode %s |}", m, m), kind: "voucher"}
 						}
@@ -1022,6 +1072,35 @@ func (h *hctx) ifStmt(s *ast.IfStmt, after []ast.Stmt, env henv, tail tailFn) st
 			}
 			return rest(e2)
 		})
+	}
+	if be, ok := s.Cond.(*ast.BinaryExpr); ok && (be.Op == token.NEQ || be.Op == token.EQL) && exprString(be.Y) == "nil" {
+		if nm := lhsName(be.X); nm != "" {
+			if v, ok := env[nm]; ok && v.kind == "omsg" {
+				var elseList []ast.Stmt
+				if s.Else != nil {
+					if eb, ok := s.Else.(*ast.BlockStmt); ok {
+						elseList = eb.List
+					} else {
+						h.refuse(s, "else-if after a nil test of a message")
+					}
+				}
+				someList, noneList := s.Body.List, elseList
+				if be.Op == token.EQL {
+					someList, noneList = elseList, s.Body.List
+				}
+				mv := h.gensym("m")
+				eS, eN := env.copy(), env.copy()
+				eS[nm] = hv{coq: mv, kind: "msg"}
+				eN[nm] = hv{kind: "nil"}
+				cont := func(l []ast.Stmt, e henv) string {
+					if terminates(l) {
+						return h.seq(l, e, tail)
+					}
+					return h.seq(append(append([]ast.Stmt{}, l...), after...), e, tail)
+				}
+				return fmt.Sprintf("match %s with\n  | Some %s => %s\n  | None => %s\n  end", v.coq, mv, cont(someList, eS), cont(noneList, eN))
+			}
+		}
 	}
 	cond := h.expr(s.Cond, env)
 	if cond.kind == "opaquebool" || cond.kind == "opaque" {
@@ -1180,22 +1259,36 @@ func (h *hctx) switchStmt(s *ast.SwitchStmt, after []ast.Stmt, env henv, tail ta
 	if tag.kind != "ctype" {
 		h.refuse(s, "switch on a %s", tag.kind)
 	}
+	cont := func(l []ast.Stmt) string {
+		if terminates(l) {
+			return h.seq(l, env.copy(), tail)
+		}
+		return h.seq(append(append([]ast.Stmt{}, l...), after...), env.copy(), tail)
+	}
 	seen := map[string]bool{}
 	var arms []string
+	deflt := ""
 	for _, cc := range s.Body.List {
 		cl := cc.(*ast.CaseClause)
-		if len(cl.List) != 1 || !terminates(cl.Body) {
-			h.refuse(cl, "every case must name one constant and end in a return")
+		if len(cl.List) == 0 {
+			deflt = cont(cl.Body)
+			continue
+		}
+		if len(cl.List) != 1 {
+			h.refuse(cl, "every case must name one constant")
 		}
 		v := h.expr(cl.List[0], env)
 		if v.kind != "ctype" || seen[v.coq] {
 			h.refuse(cl, "case label outside the subset")
 		}
 		seen[v.coq] = true
-		arms = append(arms, fmt.Sprintf("  | %s => %s", v.coq, h.seq(cl.Body, env.copy(), tail)))
+		arms = append(arms, fmt.Sprintf("  | %s => %s", v.coq, cont(cl.Body)))
 	}
 	if len(seen) != len(h.ctypes) {
-		arms = append(arms, "  | _ => "+h.seq(after, env, tail))
+		if deflt == "" {
+			deflt = h.seq(after, env, tail)
+		}
+		arms = append(arms, "  | _ => "+deflt)
 	}
 	return fmt.Sprintf("match %s with\n%s\n  end", tag.coq, strings.Join(arms, "\n"))
 }
@@ -1218,6 +1311,12 @@ func (h *hctx) withPending(value string, isProg bool) string {
 }
 
 func (h *hctx) ret(s *ast.ReturnStmt, env henv) string {
+	if len(h.fn.results) == 0 {
+		if len(s.Results) != 0 {
+			h.refuse(s, "a result is returned by a function without results")
+		}
+		return h.withPending("tt", false)
+	}
 	if len(s.Results) != len(h.fn.results) && len(s.Results) != 1 {
 		h.refuse(s, "%d results returned, %d expected", len(s.Results), len(h.fn.results))
 	}
@@ -1428,6 +1527,12 @@ func genHandlers(repo, out string, events map[string]bool) {
 			params: map[string]hv{"#self": self, "chid": {coq: "k", kind: "chid"}, "incoming": {coq: "m", kind: "msg"}}, results: []string{"omsg", "ret"}, resultType: "prog (option msg * nret)"},
 		{file: "impl/events.go", recv: "manager", name: "OnRequestReceived", coqName: "gen_OnRequestReceived", binders: "(self : N) (k : chid) (m : msg)",
 			params: map[string]hv{"#self": self, "chid": {coq: "k", kind: "chid"}, "request": {coq: "m", kind: "msg"}}, results: []string{"omsg", "ret"}, resultType: "prog (option msg * nret)"},
+		{file: "impl/receiver.go", recv: "receiver", name: "receiveRequest", coqName: "gen_receiveRequest", binders: "(self : N) (from : N) (m : msg)",
+			params: map[string]hv{"#self": self, "initiator": {coq: "from", kind: "N"}, "incoming": {coq: "m", kind: "msg"}}, results: []string{"ret"}, resultType: "prog nret"},
+		{file: "impl/receiver.go", recv: "receiver", name: "receiveResponse", coqName: "gen_receiveResponse", binders: "(self : N) (from : N) (m : msg)",
+			params: map[string]hv{"#self": self, "sender": {coq: "from", kind: "N"}, "incoming": {coq: "m", kind: "msg"}}, results: []string{"ret"}, resultType: "prog nret"},
+		{file: "impl/receiver.go", recv: "receiver", name: "ReceiveRestartExistingChannelRequest", coqName: "gen_ReceiveRestartExistingChannelRequest", binders: "(self : N) (from : N) (m : msg)",
+			params: map[string]hv{"#self": self, "sender": {coq: "from", kind: "N"}, "incoming": {coq: "m", kind: "msg"}}, results: []string{}, resultType: "prog unit"},
 	}
 	var b strings.Builder
 	b.WriteString("(* GENERATED by tools/dt2coq (handlers.go) from impl/utils.go, impl/restart.go, impl/impl.go, impl/events.go and the event\n   methods of channels/channels.go -- do not edit *)\n")
@@ -1493,6 +1598,9 @@ func genHandlers(repo, out string, events map[string]bool) {
 			}
 		}
 		body := h.seq(fd.Body.List, env, func(henv) string {
+			if len(fn.results) == 0 {
+				return h.withPending("tt", false)
+			}
 			refuse(fd, "%s: a path without a return", fn.name)
 			return ""
 		})
